@@ -16,6 +16,11 @@ def tasks(run):
 
 
 def run(run):
+    from pyvc import components, runner
+    runner.load_contracts()
+    components.ast_functions(run, ['PEPit/wrappers/cvxpy_wrapper.py::CvxpyWrapper.prepare_heuristic', 'PEPit/wrappers/cvxpy_wrapper.py::CvxpyWrapper.heuristic'],
+                             run.tier)
+    run.trust('pyvc AST engine + z3 5.1 / cvc5 1.0.3', 'cvxpy modelled by denotation (pyvc/cvxmodel.py, assumed)')
     hc.solve_scenarios(run, 'C14', tasks(run), 'rt-solve-dimension-reduction',
                        'seeded DSL programs solved without and with the heuristic (trace, logdet1-3, two tolerances): same dual bound, same multipliers, certificate '
                        'valid for the bound, primal objective >= optimum - tolerance, all sent constraints hold at the returned instance, trace not increased')
